@@ -100,7 +100,7 @@ Proof.
   assert (forall batch, (forall x, In x batch -> lf_backed fixed nodes evs x) ->
             lf_backed fixed nodes evs (lf_recv st batch)) as G.
   { intros batch Hall. destruct (lf_recv_spec st batch) as [_ [->|[Hi _]]]; [assumption|auto]. }
-  destruct e as [batch|r|batch|]; cbn.
+  destruct e as [batch|r|batch|]; cbn [lf_step].
   - apply G. intros x Hx. rewrite in_map_iff in Hx. destruct Hx as (t & <- & Ht).
     apply filter_In in Ht. destruct Ht as [Ht Hv].
     intros s Hs. exists t. split; [exists batch; split; assumption|]. split; [assumption|reflexivity].
